@@ -75,6 +75,8 @@ MANIFEST = dict(
              dict(name="E-encase", path="harness/src/eng_encase.rs + coq/extract/eng_encase.ml, Extract_encase.v (Model/Encase.v)",
                   kind_free_text="differential: the real manager/utils.rs:search_encasing_node on the annotated mirror of the parsed tree vs the extracted model Encase.search on the dumped tree, at the start / middle / end of every token-carrying node (terminals, type names, parameter / field / record-field / variant / declaration names); oracle: the answer is that node")],
 )
+MANIFEST["text"] += ' Fourth session: the token-order hypothesis of the enclosure theorems is discharged for lexer output: C06_lexed_tokens_ordered_iff (tord (lex text) iff the text has no empty comment), C06_text_encloses, C06_range_encloses_text, C06_innermost_is_ident_text, C06_old_token_end_in_bytes_refuted (the repaired defect f444e80); C06_text_roundtrip composes the lexer round trip (C05_lex_unlex) with the file theorem: a printed file of the grammar lexes without error and parses to the prescribed tree with zero diagnostics.'
+
 ASSUMPTIONS = [
     "construct-level theorems (expressions, types, statements, declarations) are about the un-memoised grammar (cmemo = false); the file-level theorem C06_file_roundtrip is about the memoised parse_gold, via C07's simulation (Proofs/FuelIndep.v)",
     "range theorems assume the token-order hypothesis tord explicitly (ranges well formed, consecutive tokens do not overlap, non-literal tokens non-empty): a statement about lexer output (C05/C08)",
